@@ -403,6 +403,7 @@ pub fn fillers(k: usize) -> Vec<Node> {
             Unary::Rep(0, None, Mode::Lazy),
             Unary::Rep(1, None, Mode::Greedy),
             Unary::Rep(1, Some(2), Mode::Greedy),
+            Unary::Rep(1, Some(2), Mode::Lazy),
         ],
         concat: true,
         alt: true,
@@ -519,6 +520,22 @@ pub fn contexts() -> Vec<Context> {
         ("(é)?(?=(□)(?(1)a|))\\2□'", cat(vec![opt(grp(lit("é"))), la(cat(vec![grp(h0()), condg(1, x(), Node::Empty)])), Node::Backref(2), h1()])),
         ("(é)?(?>(□)(?=(?(1)a|)))□'", cat(vec![opt(grp(lit("é"))), atomic(cat(vec![grp(h0()), la(condg(1, x(), Node::Empty))])), h1()])),
         ("(é)?(?((?=(?(1)a|b)))□|□')", cat(vec![opt(grp(lit("é"))), cond(la(condg(1, x(), y())), h0(), h1())])),
+        // loops with captures inside atomic constructs, then a failure and another alternative
+        // (the undo log grows with the number of iterations)
+        ("(?>(?:(□)(?=□'))*)b|a+", alt(vec![cat(vec![atomic(star(cat(vec![grp(h0()), la(h1())]))), y()]), plus(x())])),
+        ("(?:(?>(□)(?!b)|□'))+?b", cat(vec![lazy_plus(atomic(alt(vec![cat(vec![grp(h0()), nla(y())]), h1()]))), y()])),
+        ("(?=(?:(□)□')*)\\1*b|.", alt(vec![cat(vec![la(star(cat(vec![grp(h0()), h1()]))), star(Node::Backref(1)), y()]), Node::Dot])),
+        // the same piece delegated twice (identical delegate text, different group numbers)
+        ("(□)\\b(□)", cat(vec![grp(h0()), Node::Assert(A::WordB), grp(h0())])),
+        ("(?<=(□))x(?=(□))", cat(vec![lb(grp(h0())), x(), la(grp(h0()))])),
+        ("(?>(□))x(?>(□))", cat(vec![atomic(grp(h0())), x(), atomic(grp(h0()))])),
+        ("(?=(□))(□)", cat(vec![la(grp(h0())), grp(h0())])),
+        // conditional branches with several ways to match, followed by something that can fail
+        ("(é)?(?(1)□|b)□'", cat(vec![opt(grp(lit("é"))), condg(1, h0(), y()), h1()])),
+        ("(é)?(?(1)a|□)□'", cat(vec![opt(grp(lit("é"))), condg(1, x(), h0()), h1()])),
+        ("(é)?(?>(?(1)a|□)□')", cat(vec![opt(grp(lit("é"))), atomic(cat(vec![condg(1, x(), h0()), h1()]))])),
+        ("(é)?(?=(?(1)a|□)□')", cat(vec![opt(grp(lit("é"))), la(cat(vec![condg(1, x(), h0()), h1()]))])),
+        ("(?(□)□'|b)a", cat(vec![cond(h0(), h1(), y()), x()])),
         // \K, \G, word boundary
         ("□\\K□'", cat(vec![h0(), Node::KeepOut, h1()])),
         ("(?<=x\\K)□", cat(vec![lb(cat(vec![x(), Node::KeepOut])), h0()])),
@@ -529,6 +546,10 @@ pub fn contexts() -> Vec<Context> {
         ("x|(?<=\\K□)□'", alt(vec![x(), cat(vec![lb(cat(vec![Node::KeepOut, h0()])), h1()])])),
         ("(?=□\\K)□'", cat(vec![la(cat(vec![h0(), Node::KeepOut])), h1()])),
         ("\\G□", cat(vec![Node::ContG, h0()])),
+        ("\\G□|□'", alt(vec![cat(vec![Node::ContG, h0()]), h1()])),
+        ("□|\\G□'", alt(vec![h0(), cat(vec![Node::ContG, h1()])])),
+        ("(?:\\G□)?□'", cat(vec![opt(cat(vec![Node::ContG, h0()])), h1()])),
+        ("(?:\\G□)*□'", cat(vec![star(cat(vec![Node::ContG, h0()])), h1()])),
         ("□\\G", cat(vec![h0(), Node::ContG])),
         ("(?:\\G□)+", plus(cat(vec![Node::ContG, h0()]))),
         ("\\b□", cat(vec![Node::Assert(A::WordB), h0()])),
